@@ -135,6 +135,23 @@ def check(ctx):
         ctx.check(not escaping, "C03.R4", m.qualname, stmt_text(m, escaping[0].node) if escaping else None,
                   (f"{', '.join(sorted(escaping[0].excs))} can escape: {escaping[0].msg}" if escaping else ""), m, escaping[0].node if escaping else m.node,
                   detail="children keys modelled as arbitrary hashables of mixed types")
+    # loc elements are str / int (JSON-serializable whatever the keys of the input were)
+    er = ve.methods["_errors"]
+    ys = [n for n in walk_no_nested(er.node) if isinstance(n, ast.Yield) and isinstance(n.value, ast.Tuple) and isinstance(n.value.elts[0], ast.List) and n.value.elts[0].elts]
+    ctx.require(ys, "ValidationError._errors: yield of [key, *path] not found")
+    for y in ys:
+        first = y.value.elts[0].elts[0]
+        e = first
+        if isinstance(first, ast.Name):
+            vals = [a.value for a in ast.walk(er.node) if isinstance(a, ast.Assign) and isinstance(a.targets[0], ast.Name) and a.targets[0].id == first.id]
+            e = vals[0] if len(vals) == 1 else first
+        ok = False
+        if isinstance(e, ast.IfExp) and isinstance(e.test, ast.Call) and dotted(e.test.func) == "isinstance" and norm(e.test.args[1]) in ("(str, int)", "(int, str)"):
+            ok = isinstance(e.orelse, ast.Call) and dotted(e.orelse.func) in ("str", "repr") and norm(e.body) == norm(e.test.args[0])
+        elif isinstance(e, ast.Call) and dotted(e.func) in ("str", "repr"):
+            ok = True
+        ctx.check(ok, "C03.R4", er.qualname + ":loc", y, f"`loc` receives `{norm(first)}` as it is: a key of the input that is neither str nor int (bytes, tuple, ...) makes ValidationError.errors not JSON-serializable",
+                  er, y, detail="key if isinstance(key, (str, int)) else str(key)")
     for fname in ("merge_errors", "apply_aliaser"):
         m = model.func(f"{ERRORS}.{fname}")
         attr = {"err1.children": children, "err2.children": children, "error.children": children}
@@ -352,6 +369,7 @@ def mutants(mb):
     mb.add_text("pattern-nonstr-key", M, "                    if isinstance(key, str) and pattern_field.pattern.match(key)\n", "                    if pattern_field.pattern.match(key)\n", "C03.R1", "ObjectMethod")
     mb.add_text("unique-unhashable", M, "        try:\n            return len(set(map(to_hashable, data))) == len(data)\n        except TypeError:  # unhashable element which is neither a list nor a dict\n            return all(elt not in data[:i] for i, elt in enumerate(data))\n", "        return len(set(map(to_hashable, data))) == len(data)\n", "C03.R1", "UniqueItemsConstraint")
     mb.add_text("errors-sorted-mixed", E, "        try:\n            child_keys = sorted(self.children)\n        except TypeError:  # keys of different types, e.g. str and int\n            child_keys = sorted(\n                self.children, key=lambda key: (key.__class__.__name__, str(key))\n            )\n", "        child_keys = sorted(self.children)\n", "C03.R4", "_errors")
+    mb.add_text("loc-raw-key", E, "            loc = child_key if isinstance(child_key, (str, int)) else str(child_key)\n", "            loc = child_key\n", "C03.R4", "loc")
     # new hazards
     mb.add_text("multiple-of-round", M, "        try:\n            return not (data % self.mult_of)\n        except OverflowError:", "        try:\n            quotient = data / self.mult_of\n            return abs(quotient - round(quotient)) < 1e-9\n        except ZeroDivisionError:", "C03.R1", "MultipleOfConstraint")
     mb.add_text("multiple-of-overflow", M, "        try:\n            return not (data % self.mult_of)\n        except OverflowError:  # integer too large to be converted to float\n            from fractions import Fraction\n\n            return not (Fraction(data) % Fraction(self.mult_of))\n", "        return not (data % self.mult_of)\n", "C03.R1", "MultipleOfConstraint")
